@@ -110,7 +110,15 @@ def dispatchC05 : List Str → Option (List Str)
           let p := inheritProject (entsToList fs) toks.length
           let q := pruneProject cfg p
           some ["ok".toList, showIds (idsOf q), showIds (visibleIdsOf q), showIds (sitePageIds cfg p), showIds (shownIds cfg p),
-                joinSep ';' ((pagesShown cfg p).map fun (pg, ids) => showNat pg ++ [':'] ++ joinSep '.' (ids.map showNat))]
+                joinSep ';' ((pagesShown cfg p).map fun (pg, ids) => showNat pg ++ [':'] ++ joinSep '.' (ids.map showNat)),
+                -- binding names that are links in type summaries: `type.binding.declaringType`, as the macro is
+                -- (guarded) and without its test of the declaring type
+                joinSep ';' ((bindLinksOf true (entsToList fs) q q).map fun (t, b, d) =>
+                  joinSep '.' [showNat t, showNat b, showNat d]),
+                joinSep ';' ((bindLinksOf false (entsToList fs) q q).map fun (t, b, d) =>
+                  joinSep '.' [showNat t, showNat b, showNat d]),
+                -- graph nodes (of every entity, removed ones included) that carry a URL: `entity.page`
+                joinSep ';' ((nodeUrlsOf (entsToList fs) q p).map fun (x, pg) => joinSep '.' [showNat x, showNat pg])]
         | _ => some ["bad-tree".toList]
       | _ => some ["bad-request".toList]
     else if cmd == "c05.links".toList then
